@@ -125,6 +125,7 @@ type ListRes struct {
 	Panic   interface{}
 	WF      []string // violations of the C05 well-formedness predicate
 	Out     string
+	Out2    string // second rendering of the same result on the same analyzer
 	OutErr  error
 	Exposed []XPeer
 	// ScanErrs: errors returned by fsscanner when the resource-info entry point is used (unreadable files never
@@ -316,6 +317,8 @@ func RunList(dir string, o ListOpts) (res *ListRes) {
 	}
 	if o.WantOutput && err == nil {
 		res.Out, res.OutErr = ca.ConnectionsListToString(conns)
+		// the same result rendered once more on the same analyzer (rendering must not leave state behind)
+		res.Out2, _ = ca.ConnectionsListToString(conns)
 	}
 	return res
 }
@@ -334,6 +337,7 @@ type DiffRes struct {
 	Panic  interface{}
 	Empty  bool
 	Out    string
+	Out2   string
 	OutErr error
 }
 
@@ -388,6 +392,7 @@ func RunDiff(d1, d2 string, o DiffOpts) (res *DiffRes) {
 	}
 	if o.WantOutput {
 		res.Out, res.OutErr = da.ConnectivityDiffToString(cd)
+		res.Out2, _ = da.ConnectivityDiffToString(cd)
 	}
 	return res
 }
